@@ -145,7 +145,9 @@ class RemoteServer():
                                 logger.warning('Context {} does not exist', ctx_id)
                             else:
                                 if not current.wait(timeout=5):
-                                    result = current.terminate(timeout=0.1)
+                                    # forced: the helper passes the SIGTERM on to the workers it has not dealt with yet -
+                                    # leave it the time to do so before SIGKILL follows
+                                    result = current.terminate(timeout=1)
                                 logger.info('Context {} removed', ctx_id)
                                 del current
                         else:
